@@ -34,6 +34,14 @@ class MeshWedge1(Mesh3D):
     )
     elem: Type[Element] = ElementWedge1
 
+    def _init_facets(self):
+        """Initialize ``self.facets`` without sorting"""
+        self._facets, self._t2f = self.build_entities(
+            self.t,
+            self.elem.refdom.facets,
+            sort=False,
+        )
+
     def to_meshtet(self):
 
         t = np.hstack((
